@@ -439,4 +439,20 @@ inductive Reachable (cfg : Cfg) (ops : List Op) : Sys → Prop
   | init : Reachable cfg ops (init ops)
   | step {s s'} (i : Nat) (ch : Choice) : Reachable cfg ops s → step cfg s i ch = some s' → Reachable cfg ops s'
 
+/-- run a schedule: each entry is (thread, choice) -/
+def runSched (cfg : Cfg) (s : Sys) : List (Nat × Choice) → Option Sys
+  | [] => some s
+  | (i, ch) :: rest =>
+    match step cfg s i ch with
+    | some s' => runSched cfg s' rest
+    | none => none
+
+/-- let thread `i` take `k` steps without faults (map order: first entry) -/
+def runThread (cfg : Cfg) (s : Sys) (i : Nat) : Nat → Option Sys
+  | 0 => some s
+  | k + 1 =>
+    match step cfg s i {} with
+    | some s' => runThread cfg s' i k
+    | none => none
+
 end Xp.C13
